@@ -29,7 +29,7 @@ RULE = ("streams of calls (motif name, graph, root, substitution for phi and for
         "non-contiguous labels up to 257 in shuffled insertion order; a malformed stream (root not in "
         "the motif); the corpus starts with focal vertex 0 in motifs whose first inserted vertex is another one (and phi = 0 / "
         "u_v = 0 as Poly, int, float); the focal vertex is always handed over as an int object of its own (equal to, not "
-        "identical with, the graph's key; labels up to 4097). MP STREAMS (6 in the corpus, 46 quick / 182 thorough): the same "
+        "identical with, the graph's key; labels up to 511). MP STREAMS (6 in the corpus, 46 quick / 182 thorough): the same "
         "calls made through the library's other public entry point MessagePassing.resolve_equation(focal, cover label, "
         "messages) on ONE MessagePassing object (iterations=0, theoretical(phi) installs phi) over an edge-disjoint covered "
         "network = 1-3 motifs of the stream (13 shapes: edge .. 6-cycle, and every connected graph on <= 4 vertices) + "
@@ -196,7 +196,7 @@ def _rand_connected(rng, n, max_edges, labels):
     return nodes, edges
 
 
-LABELS = list(range(0, 12)) + [15, 16, 17, 31, 32, 33, 63, 64, 65, 100, 257, 258, 300, 1000, 4097]
+LABELS = list(range(0, 12)) + [15, 16, 17, 31, 32, 33, 63, 64, 65, 100, 257, 258, 300, 511]
 AMBIG = [1, 2, 3, 11, 12, 13, 21, 23, 31, 32, 111, 112, 121, 123, 211, 231, 311, 312]
 
 
@@ -352,7 +352,7 @@ MP_SHAPES = [
     ([0, 1, 2, 3, 4], [[0, 1], [1, 2], [2, 0], [2, 3], [3, 4], [4, 2]]),
     ([0, 1, 2, 3, 4, 5], [[0, 1], [1, 2], [2, 3], [3, 4], [4, 5], [5, 0]]),
 ]
-MP_LABELS = list(range(0, 14)) + [15, 16, 17, 31, 32, 33, 63, 64, 65, 100, 255, 256, 257, 258, 300, 511, 1000, 4097]
+MP_LABELS = list(range(0, 14)) + [15, 16, 17, 31, 32, 33, 63, 64, 65, 100, 255, 256, 257, 258, 300, 511]
 
 
 def _topo_code(nodes, edges):
